@@ -12,8 +12,8 @@ import vlib
 
 PROP = 'C12'
 HEADER = ('From Coq Require Import List NArith Bool Arith.\nImport ListNotations.\n'
-          'From VDrv Require Import Queue Handoff.\nOpen Scope N_scope.\n')
-COQ_TARGETS = ['props/C12.vo']
+          'From VDrv Require Import Queue Handoff QueueRank.\nOpen Scope N_scope.\n')
+COQ_TARGETS = ['props/C12.vo', 'drv/QueueRank.vo']
 
 
 def monitor(case):
@@ -73,6 +73,27 @@ def replay_cases(binary, cases):
     out, log = run_impl(binary, ['--replay', inp])
     os.remove(inp)
     return out, log
+
+
+def race_run(seed):
+    """Thorough tier, supporting validation only: the same controlled schedules and a short stress run under
+    the Go race detector.  Returns a summary dict (never a verdict)."""
+    out = os.path.join(vlib.BUILD, 'bin' + vlib._repo_tag(), 'c12race')
+    with vlib.Lock('gobuild' + vlib._repo_tag()):
+        gm = vlib.go_prepare()
+        rc, log = vlib.run([vlib.go_bin(), 'build', '-race', '-modfile=' + gm, '-tags', 'verif', '-o', out, './cmd/c12'],
+                           cwd=vlib.HARNESS, env=vlib.go_env(), timeout=1500)
+    if rc != 0:
+        return {'built': False, 'log': log[-500:]}
+    tmp = os.path.join(vlib.BUILD, 'c12race_%d.json' % os.getpid())
+    rc1, log1 = vlib.run([out, '--seed', str(seed), '--n', '150', '--out', tmp], timeout=900)
+    rc2, log2 = vlib.run([out, '--stress', '8', '--workers', '4', '--out', tmp], timeout=900)
+    if os.path.exists(tmp):
+        os.remove(tmp)
+    reports = (log1 + log2).split('WARNING: DATA RACE')[1:]
+    in_driver = [r for r in reports if 'amd/driver' in r.split('Goroutine')[0]]
+    return {'built': True, 'schedules': 150, 'reports': len(reports), 'reports_in_amd_driver': len(in_driver),
+            'first': in_driver[0][:1500] if in_driver else ''}
 
 
 def main(argv):
@@ -139,13 +160,15 @@ def main(argv):
         gen, log = run_impl(binary, ['--seed', str(vlib.seed()), '--n', str(n)])
         if gen is None:
             rep.obligation('harness run', False)
-            rep.violation({'broken': 'harness run failed', 'log': log[-4000:]}, nofail=True)
+            rep.violation({'broken': 'harness run failed', 'log': log[-4000:]}, nofail=True,
+                          text='harness run failed: ' + (log.strip().split('\n') or [''])[0][:200])
             return rep.finish()
         cases += gen
         ex, log = run_impl(binary, ['--explore', '14' if thorough else '7', '--explore-runs', '4000' if thorough else '240'])
         if ex is None:
             rep.obligation('bounded exploration run', False)
-            rep.violation({'broken': 'harness exploration run failed', 'log': log[-4000:]}, nofail=True)
+            rep.violation({'broken': 'harness exploration run failed', 'log': log[-4000:]}, nofail=True,
+                          text='harness exploration run failed: ' + (log.strip().split('\n') or [''])[0][:200])
             return rep.finish()
         nex = len(ex)
         cases += ex
@@ -154,7 +177,12 @@ def main(argv):
     bad = [(i, m) for i, m in bad if m]
     odd = [(i, k, s['odd']) for i, c in enumerate(cases) for k, s in enumerate(c['steps']) if s.get('odd')]
 
-    okc, mism, clog = vlib.eval_cases(PROP, HEADER, [c['coq'] for c in cases], shard_size=12)
+    okc, allm, clog = vlib.eval_cases(PROP, HEADER, [c['coq'] for c in cases], shard_size=12, checker='check_all')
+    mism = [(i, k) for i, k in allm if k < 1000000]
+    rankbad = [(i, k - 1000000) for i, k in allm if k >= 1000000]
+    nmodel = sum(len(s['chain']) for c in cases for s in c['steps'])
+    rep.obligation('cross-check: the ranking function of coq/drv/QueueRank.v (theorem rank_decreases) strictly decreases on '
+                   'all %d model transitions of the replayed schedules' % nmodel, okc and not rankbad)
     rep.obligation('correspondence: %d controlled schedules (%d granted steps) agree with the model step by step'
                    % (len(cases), sum(len(c['steps']) for c in cases)), okc and not mism and not odd)
 
@@ -170,6 +198,9 @@ def main(argv):
         rep.obligation('stress: %s iterations of {Enqueue; Enqueue; DrainCommandQueue} made progress throughout'
                        % ' + '.join(str(r['iterations']) for r in stress), not any(r['hung'] for r in stress))
 
+    race = race_run(vlib.seed()) if (thorough and not replay_file) else None
+    if race is not None:
+        rep.coverage['race_detector_supporting_run'] = race
     steps = collections.Counter(s['g'][0] for c in cases for s in c['steps'])
     rep.coverage.update({
         'evaluations': len(cases),
@@ -183,6 +214,7 @@ def main(argv):
         'steps_by_thread': dict(steps),
         'corpus_cases': ncorpus,
         'model_mismatches': len(mism), 'monitor_failures': len(bad), 'unexpected_blocking': len(odd),
+        'rank_checked_transitions': nmodel, 'rank_violations': len(rankbad),
         'stress': [{k: r[k] for k in ('workers', 'iterations', 'seconds', 'hung')} for r in stress],
         'not_expressible': 'data races in the sense of the Go memory model (CommandQueue.IsRunning, Context.buffers, '
                            'Driver.codeObjGPUAddrs are accessed without locks); the theorems speak about interleavings of '
@@ -209,6 +241,13 @@ def main(argv):
                        % (r['iterations'], r['workers']), 'goroutines': r.get('dump', '')[-6000:],
                        'replay_cmd': 'build/bin*/c12 --stress 30 --workers %d' % r['workers']},
                       text='DrainCommandQueue hang under stress after %d iterations' % r['iterations'])
+    elif rankbad and not (mism or odd):
+        i, k = rankbad[0]
+        c = dict(cases[i])
+        c.pop('coq', None)
+        rep.violation({'property': PROP, 'broken': 'the ranking function (coq/drv/QueueRank.v) does not decrease at model transition %d of schedule %d '
+                       'replayed from the real driver' % (k, i),
+                       'case': c}, nofail=True, text='ranking function does not decrease at schedule %d transition %d' % (i, k))
     elif mism or odd or not okc:
         i, k = mism[0] if mism else ((odd[0][0], odd[0][1] + 1) if odd else (0, 0))
         c = dict(cases[i]) if cases else None
